@@ -679,7 +679,7 @@ def _label_taint(ctx):
     prog = ctx.prog
     ulf = prog.func(UL)
     sites = prog.callers_of(UL)
-    ctx.floor("C07b-update-labels-sites", len(sites), 6)
+    ctx.floor("C07b-update-labels-sites", len(sites), 3)
     for caller, call, kind in sites:
         b = prog.bind(ulf, call)
         tg = b.get("targets")
